@@ -94,7 +94,7 @@ class Scenario:
         """compile done; run the setup thread concretely and make its final state the initial state"""
         self.comp.finish_deferred()
         self.protected = self.comp.apply_lock_protection()
-        self.ts = bmc.TS(self.model, self.comp, prefix=prefix)
+        self.ts = bmc.TS(self.model, self.comp, prefix=prefix, setup=setup)
         ts = self.ts
         if setup:
             st = ts.init_state()
@@ -219,8 +219,9 @@ class PoolScenario(Scenario):
                         import time as _t
 
                         t0 = _t.time()
-                        while not getattr(G, f"release_{name}") and _t.time() - t0 < 20:
-                            _t.sleep(0.005)
+                        with sched.idle():
+                            while not getattr(G, f"release_{name}") and _t.time() - t0 < 20:
+                                _t.sleep(0.005)
                         sched.sync("await")
                     sched.sync("task")
                     setattr(G, f"fin_{name}", 1)
@@ -235,8 +236,9 @@ class PoolScenario(Scenario):
                 import time as _t
 
                 t0 = _t.time()
-                while not fn() and _t.time() - t0 < 20:
-                    _t.sleep(0.005)
+                with sched.idle():
+                    while not fn() and _t.time() - t0 < 20:
+                        _t.sleep(0.005)
                 sched.sync("await")
 
             d = {"WorkerPool": gb.WorkerPool, "TaskError": TaskError, "await_": await_, "EM": em}
@@ -528,17 +530,18 @@ class GatewayScenario(Scenario):
 
                         on_main = sched.me() == "main"
                         t0 = _t.time()
-                        while _t.time() - t0 < 20:
-                            if kind == "block" and getattr(G, f"release_{name}"):
-                                break
-                            if kind == "sleep" and on_main and G.sigint_pending:
-                                G.sigint_pending = 0
-                                break
-                            if kind == "recv" and G.eof:
-                                break
-                            _t.sleep(0.005)
-                        else:
-                            _th.Event().wait()      # never ends
+                        with sched.idle():
+                            while _t.time() - t0 < 20:
+                                if kind == "block" and getattr(G, f"release_{name}"):
+                                    break
+                                if kind == "sleep" and on_main and G.sigint_pending:
+                                    G.sigint_pending = 0
+                                    break
+                                if kind == "recv" and G.eof:
+                                    break
+                                _t.sleep(0.005)
+                            else:
+                                _th.Event().wait()      # never ends
                         sched.sync("await")
                     sched.sync("task")
                     setattr(G, f"fin_{name}", 1)
@@ -559,8 +562,9 @@ class GatewayScenario(Scenario):
                 import time as _t
 
                 t0 = _t.time()
-                while not fn() and _t.time() - t0 < 20:
-                    _t.sleep(0.005)
+                with sched.idle():
+                    while not fn() and _t.time() - t0 < 20:
+                        _t.sleep(0.005)
                 sched.sync("await")
 
             d = {"await_": await_, "EM": em, "GWOBJ": gw, "TaskError": TaskError}
@@ -587,7 +591,8 @@ class GatewayScenario(Scenario):
                     sched.sync("await")
                     import threading as _t2
 
-                    _t2.Event().wait()   # the process is gone: this thread never continues
+                    with sched.idle():
+                        _t2.Event().wait()   # the process is gone: this thread never continues
 
                 def getpid(self):
                     return 0
@@ -1027,8 +1032,9 @@ class ChannelScenario(Scenario):
                 import time as _t
 
                 t0 = _t.time()
-                while not fn() and _t.time() - t0 < 20:
-                    _t.sleep(0.005)
+                with sched.idle():
+                    while not fn() and _t.time() - t0 < 20:
+                        _t.sleep(0.005)
                 sched.sync("await")
 
             d["await_"] = await_
@@ -1181,11 +1187,12 @@ class TerminateScenario(Scenario):
 
             def wait_for(pred):
                 t0 = _t.time()
-                while _t.time() - t0 < 20:
-                    if pred():
-                        return
-                    _t.sleep(0.005)
-                _th.Event().wait()      # never returns
+                with sched.idle():
+                    while _t.time() - t0 < 20:
+                        if pred():
+                            return
+                        _t.sleep(0.005)
+                    _th.Event().wait()      # never returns
 
             for k, (term, kill) in enumerate(pairs):
                 def termf(k=k, term=term):
@@ -1194,7 +1201,8 @@ class TerminateScenario(Scenario):
                     if term == "hangs":
                         wait_for(lambda: getattr(G, f"killed{k}"))
                     elif term == "stuck":
-                        _th.Event().wait()
+                        with sched.idle():
+                            _th.Event().wait()
                     sched.sync("await")
                     setattr(G, f"term_done{k}", 1)
 
@@ -1202,7 +1210,8 @@ class TerminateScenario(Scenario):
                     sched.sync("task")
                     setattr(G, f"kill_called{k}", 1)
                     if kill != "kills":
-                        _th.Event().wait()
+                        with sched.idle():
+                            _th.Event().wait()
                     sched.sync("await")
                     setattr(G, f"killed{k}", 1)
 
